@@ -22,8 +22,8 @@ ASSUMPTIONS = [
     "termination is checked with a 20 s alarm per batch of 2000 strings",
 ]
 BOUNDS = {
-    "quick": {"full_alphabet_N": 3, "core_alphabet_N": 4, "edit_distance": 1},
-    "thorough": {"full_alphabet_N": 4, "core_alphabet_N": 6, "edit_distance": 2},
+    "quick": {"full_alphabet_N": 3, "core_alphabet_N": 4, "edit_distance": 1, "value_context_N": 4, "value_core_N": "6 (7 thorough) inside g( .. )"},
+    "thorough": {"full_alphabet_N": 4, "core_alphabet_N": 6, "edit_distance": 2, "value_context_N": 5, "value_core_N": "6 (7 thorough) inside g( .. )"},
 }
 
 ENV_SRC = '''
@@ -71,6 +71,10 @@ INJECTIONS = {
     "unknown-variable": ["f > nope", "f(nope) > x", "g(x, f(!q))"],
     "non-function-target": ["n > x", "K > x", "len > x", "obj > x"],
 }
+VALUE_PREFIXES = ["f > x =", "f ( x ~", "f > x :", "f ( x ) ="]
+VALUE_SUFFIX = {"f ( x ~": " ) > z", "f > x = g (": " )", "f ( x ~ g (": " ) ) > z"}
+VALUE_CORE = ["g", "1", "(", ")", "=", ","]
+VALUE_ALPHABET = ["g", "lt", "1", "'s'", "(", ")", ",", "=", "~", ":", "@A", "x"]
 NO_FOCUS_OVERRIDABLE = ["f(x)", "f(x, z)", "g(x, f(z))"]
 
 
@@ -82,6 +86,15 @@ def units(tier):
     out.append(("strings", "FULL", (), 0))
     for a, c in itertools.product(S.CORE, repeat=2):
         out.append(("strings", "CORE", (a, c), b["core_alphabet_N"]))
+    # value-expression contexts: the second evaluator (value_evaluate) has its own operand asserts
+    for pre in VALUE_PREFIXES:
+        for a in VALUE_ALPHABET:
+            out.append(("value", pre, (a,), 4 if tier == "quick" else 5))
+    deep = 6 if tier == "quick" else 7
+    for v1 in VALUE_CORE:
+        out.append(("value-core", "f > x =", (v1,), deep))
+        out.append(("value-core", "f > x = g (", (v1,), deep))
+        out.append(("value-core", "f ( x ~ g (", (v1,), deep))
     for i in range(len(valid_selectors(tier))):
         out.append(("edits", i, b["edit_distance"]))
     out.append(("inject",))
@@ -282,6 +295,17 @@ def work(unit, tier):
             rest = max(0, n - len(prefix))
             gen = (S.join(prefix + t) for k in range(rest + 1) for t in itertools.product(alphabet, repeat=k))
             batch(gen)
+    elif kind == "value":
+        _, pre, prefix, n = unit
+        suf = VALUE_SUFFIX.get(pre, "")
+        gen = (pre + " " + S.join(prefix + t) + suf for k in range(n) for t in itertools.product(VALUE_ALPHABET, repeat=k))
+        batch(gen, deep=False)
+    elif kind == "value-core":
+        _, pre, prefix, n = unit
+        suf = VALUE_SUFFIX.get(pre, "")
+        rest = n - len(prefix)
+        gen = (pre + " " + S.join(prefix + t) + suf for k in range(rest + 1) for t in itertools.product(VALUE_CORE, repeat=k))
+        batch(gen, deep=False)
     elif kind == "edits":
         _, idx, dist = unit
         base = tokenize_words(valid_selectors(tier)[idx])
